@@ -11,6 +11,13 @@ const MAX_NUM_TOKENS: usize = 1 << 24;
 const MAX_NUM_PAYLOADS: usize = 1 << 24;
 const MAX_NUM_LEXING_ERRORS: usize = 100;
 
+#[cfg(feature = "penne_verif")]
+thread_local! {
+	// Verification hook H5: number of slots of the token buffers that have
+	// been initialised by `TokensBuffer::push_token` since `Tokens::buffer`.
+	static VERIF_TOKEN_PUSHES: std::cell::Cell<usize> = const { std::cell::Cell::new(0) };
+}
+
 #[must_use]
 pub(super) struct TokenAllocError;
 
@@ -153,6 +160,18 @@ impl Tokens
 		let error_cap = std::cmp::min(source_len, MAX_NUM_LEXING_ERRORS);
 		let errors = Vec::with_capacity(error_cap);
 
+		#[cfg(feature = "penne_verif")]
+		if crate::verif_trace::is_on()
+		{
+			crate::verif_trace::emit(format!(
+				"{{\"ev\":\"tokcap\",\"len\":{},\"cap\":{},\"vapcap\":{},\"loccap\":{},\"errcap\":{}}}",
+				source_len,
+				tokens.capacity(),
+				token_vaps.capacity(),
+				token_locations.capacity(),
+				errors.capacity(),
+			));
+		}
 		Tokens {
 			source_filename,
 			tokens,
@@ -201,6 +220,8 @@ impl Tokens
 		assert_eq!(token_vaps.capacity(), tokens.capacity());
 		assert_eq!(token_locations.capacity(), tokens.capacity());
 		assert_eq!(tokens.len(), 0);
+		#[cfg(feature = "penne_verif")]
+		VERIF_TOKEN_PUSHES.with(|x| x.set(0));
 		TokensBuffer {
 			num_tokens: 0,
 			tokens: tokens.spare_capacity_mut(),
@@ -231,6 +252,18 @@ impl Tokens
 			self.tokens.set_len(num_tokens);
 			self.token_vaps.set_len(num_tokens);
 			self.token_locations.set_len(num_tokens);
+		}
+		#[cfg(feature = "penne_verif")]
+		if crate::verif_trace::is_on()
+		{
+			crate::verif_trace::emit(format!(
+				"{{\"ev\":\"toklen\",\"n\":{},\"pushes\":{},\"cap\":{},\"errs\":{},\"payloads\":{}}}",
+				num_tokens,
+				VERIF_TOKEN_PUSHES.with(|x| x.get()),
+				self.tokens.capacity(),
+				self.errors.len(),
+				self.integer_payloads.len(),
+			));
 		}
 
 		if self.tokens.len() * 2 < self.tokens.capacity()
@@ -297,6 +330,15 @@ impl<'buffer> TokensBuffer<'buffer>
 		let i = self.num_tokens;
 		if i >= self.tokens.len()
 		{
+			#[cfg(feature = "penne_verif")]
+			if crate::verif_trace::is_on()
+			{
+				crate::verif_trace::emit(format!(
+					"{{\"ev\":\"tokfull\",\"i\":{},\"cap\":{}}}",
+					i,
+					self.tokens.len(),
+				));
+			}
 			return Err(TokenAllocError);
 		}
 		let token_id = TokenId(i as u32);
@@ -305,6 +347,8 @@ impl<'buffer> TokensBuffer<'buffer>
 		self.token_vaps[i].write(vap);
 		self.token_locations[i].write(location);
 		self.num_tokens += 1;
+		#[cfg(feature = "penne_verif")]
+		VERIF_TOKEN_PUSHES.with(|x| x.set(x.get() + 1));
 		Ok(token_id)
 	}
 
